@@ -365,15 +365,31 @@ def prune(spec):
     return {"syms": spec["syms"], "nodes": out, "root": ren[spec["root"]]}
 
 
-def build(spec, ctx=None, enable_alt=False, default_constant_type=None, refs=None):
-    """Build the expressions of a spec in a fresh Context. Returns (ctx, list of exprs, root expr, symbol exprs)."""
+def build(spec, ctx=None, enable_alt=False, default_constant_type=None, refs=None, call_from=None):
+    """Build the expressions of a spec in a fresh Context. Returns (ctx, list of exprs, root expr, symbol exprs).
+    call_from=k: the nodes with index >= k are created inside a nested Context.call (as sub-algorithms are), so that
+    their reference names carry a non-empty origin."""
     import functional_algorithms as fa
 
     if ctx is None:
         ctx = fa.Context(paths=[fa.algorithms], enable_alt=enable_alt, default_constant_type=default_constant_type)
     symexprs = [ctx.symbol(name, t) for name, t in spec["syms"]]
     ex = []
-    for nd in spec["nodes"]:
+    if call_from is not None and 0 < call_from < len(spec["nodes"]):
+        _build_nodes(ctx, spec, spec["nodes"][:call_from], ex, symexprs, refs, 0)
+
+        def inner(ctx_):
+            _build_nodes(ctx_, spec, spec["nodes"][call_from:], ex, symexprs, refs, call_from)
+            return ex[-1]
+
+        ctx.call(inner, ())
+        return ctx, ex, ex[spec["root"]], symexprs
+    _build_nodes(ctx, spec, spec["nodes"], ex, symexprs, refs, 0)
+    return ctx, ex, ex[spec["root"]], symexprs
+
+
+def _build_nodes(ctx, spec, nodes, ex, symexprs, refs, base):
+    for off, nd in enumerate(nodes):
         k = nd[0]
         if k == "sym":
             e = symexprs[nd[1]]
@@ -388,12 +404,9 @@ def build(spec, ctx=None, enable_alt=False, default_constant_type=None, refs=Non
         else:
             e = getattr(ctx, k)(*[ex[a] for a in nd[1:]])
         ex.append(e)
-    if refs:
-        for i, name in refs.items():
-            i = int(i)
-            if i < len(ex) and ex[i].kind not in ("symbol",):
-                ex[i].reference(name, force=True)
-    return ctx, ex, ex[spec["root"]], symexprs
+        name = (refs or {}).get(str(base + off))
+        if name is not None and e.kind not in ("symbol",):
+            e.reference(name, force=True)
 
 
 def features(spec):
